@@ -5,10 +5,18 @@ requests answer `bad-op` — never a default value.
 -/
 import PyAbel.Model.Proto
 import PyAbel.Model.Symmetry
+import PyAbel.Model.Center
 open PyAbel PyAbel.Proto
 
 def axOfNat : Nat → Option SymAxis
   | 0 => some .none | 1 => some .v | 2 => some .h | 3 => some .both | _ => none
+
+def cropOfNat : Nat → Option Crop
+  | 0 => some .maintainSize | 1 => some .validRegion | 2 => some .maintainData | _ => none
+
+/-- `N` = None / axis not selected; otherwise a (possibly negative) integer -/
+def parseOrigin (s : String) : Option (Option Int) :=
+  if s == "N" then some none else s.toInt?.map some
 
 def showImg (im : Img Float) : String :=
   s!"ok {im.rows} {im.cols} " ++ showFloats im.toList
@@ -36,6 +44,25 @@ def handle (toks : List String) : String :=
       let q := getQuadrants (Img.ofArray r c 0.0 xs) ax m
       s!"ok {q.q0.rows} {q.q0.cols} " ++ showFloats (q.q0.toList ++ q.q1.toList ++ q.q2.toList ++ q.q3.toList)
     | _, _, _, _, _, _, _, _ => "bad-op"
+  -- setcenter crop rows cols o0 o1 <pixels…>   (whole-pixel path of set_center)
+  | "setcenter" :: crop :: r :: c :: o0 :: o1 :: rest =>
+    match crop.toNat? >>= cropOfNat, r.toNat?, c.toNat?, parseOrigin o0, parseOrigin o1, parseFloats rest with
+    | some crop, some r, some c, some o0, some o1, some xs =>
+      if xs.size ≠ r * c then "bad-op" else
+      showImg (setCenter crop (Img.ofArray r c 0.0 xs) o0 o1)
+    | _, _, _, _, _, _ => "bad-op"
+  -- trim rows cols odd_size square   →  slice kept by center_image before centring
+  | ["trim", r, c, odd, sq] =>
+    match r.toNat?, c.toNat?, parseBool odd, parseBool sq with
+    | some r, some c, some odd, some sq =>
+      let t := centerImageTrim r c odd sq
+      s!"ok {t.1} {t.2.1} {t.2.2.1} {t.2.2.2}"
+    | _, _, _, _ => "bad-op"
+  -- round num den  →  Python round() of the exact rational num/den (half to even)
+  | ["round", num, den] =>
+    match num.toInt?, den.toNat? with
+    | some num, some den => if den = 0 then "bad-op" else s!"ok {roundHalfEven num den}"
+    | _, _ => "bad-op"
   | _ => "bad-op"
 
 partial def loop (h : IO.FS.Stream) (out : IO.FS.Stream) : IO Unit := do
